@@ -14,7 +14,7 @@ Direct oracles on the implementation (no model): every op an isometry mapping ea
 by indexmap (same species, spins up to one sign), closure / inverses / identity / distinctness modulo
 lattice translations with the implementation's own algebra, NOSYM, sub-threshold noise.
 """
-import os, itertools, traceback
+import os, itertools, traceback, time
 from fractions import Fraction as Fr
 import numpy as np
 import c18lib as X
@@ -55,10 +55,10 @@ META = dict(
          'decoration by orbits of random subgroups of the holohedry, spins +-1/0, rational strains via Crystal.strain, '
          'unimodular re-descriptions, random orientation, NOSYM on/off, 2-D and 3-D); non-trivial = more than the identity '
          'reported or more than one atom; distinct by exact (metric, basis, spins, flags)',
-    trusted=['harness/c18lib.py (generators, snapping, float oracles, native driver build)'],
+    trusted=['harness/c18lib.py (generators, snapping, float oracles, native driver build; Crystal.genBZG is stubbed out for speed — it is C22\'s subject and its result is not read by the symmetry code)'],
     assumptions=['scalar spins in {-1,0,1}; complex / vector spins are not modelled',
                  'distinct atoms are > 1e-3 apart and symmetry is broken by > 1e-3 or not at all (threshold regime excluded)',
-                 'noreduce=True on non-reduced cells is exercised only in the thorough tier / search'],
+                 'noreduce=True on non-reduced cells: float oracles only (known finding: the reported set is then not a group)'],
 )
 
 DRV = 'C18'
@@ -160,6 +160,9 @@ def _run_case(ctx, xc, flags, mode, nprng, lines, pending):
         return None
     for sig, what in (X.oracle_ops(crys) + X.oracle_group(crys))[:3]:
         ctx.violation(sig, what, _replay(xc, flags, dict(nops=len(G))))
+    if not flags.get('NOSYM') and mode != 'strain':
+        for sig, what in X.oracle_known(xc, crys)[:1]:
+            ctx.violation(sig, what, _replay(xc, flags, dict(nops=len(G))))
     if flags.get('NOSYM') and len(G) != 1:
         ctx.violation('nosym-not-identity', 'NOSYM=True reports %d operations' % len(G), _replay(xc, flags))
     # ---- exact description of what the implementation holds
@@ -338,9 +341,13 @@ def _noise_stream(ctx, n, nprng):
 def _noreduce_stream(ctx, n, nprng):
     """noreduce=True on deliberately non-reduced cell descriptions (float oracles)"""
     rng = ctx.rng
+    sc = X.zoo()[0]
     for k in range(n):
-        xc = X.random_xc(rng, nprng, redescribe=0.0, maxatoms=4)
-        xs = xc.transformed(X.rand_unimodular(rng, xc.d, steps=2, big=2))
+        if k == 0:
+            xs = sc.transformed([[1, 0, 1], [0, 1, 0], [0, 0, 1]])     # simple cubic, a3 = (1,0,1)
+        else:
+            xc = X.random_xc(rng, nprng, redescribe=0.0, maxatoms=4)
+            xs = xc.transformed(X.rand_unimodular(rng, xc.d, steps=2, big=2))
         try:
             c1 = X.build(xs, noreduce=True)
         except Exception as e:
@@ -354,6 +361,8 @@ def _noreduce_stream(ctx, n, nprng):
 
 def run(ctx):
     nat = X.native_driver(DRV, MODELS) is not None
+    t_run = time.time()   # (after the native build)
+    budget = 115.0 if ctx.quick else 1250.0      # for this phase (the Lean build may have waited for the lock)
     n_random = (45 if ctx.quick else 700) if nat else (6 if ctx.quick else 60)
     if not nat: ctx.note('native driver could not be built: interpreter fallback with a reduced case list')
     cases, nprng = _make_cases(ctx, n_random)
@@ -363,7 +372,8 @@ def run(ctx):
         if not nat and xc.name in ('SC', 'FCC', 'BCC', 'B2', 'diamond', 'rocksalt', 'L12', 'NbO', 'FCC+O+T', 'B2-spin',
                                    'BCC-AFM', 'diamond-AFM'):
             continue
-        if ctx.budget_left() < (60 if ctx.quick else 400): ctx.note('budget: case list truncated'); break
+        if time.time() - t_run > budget * 0.6:
+            ctx.note('budget: case list truncated after %d cases' % ctx.evaluations); break
         try:
             r = _run_case(ctx, xc, flags, mode, nprng, lines, pending)
         except Exception:
@@ -372,11 +382,13 @@ def run(ctx):
             crys, xo, ops = r
             _algebra_requests(ctx, crys, xo, ops, lines, pending, malformed=(nalg % 4 == 3))
             nalg += 1
+    if ctx.evaluations < 40:
+        import vcheck
+        raise vcheck.InternalError('C18: only %d cases evaluated before the time budget ran out' % ctx.evaluations)
     answers = X.run_driver(ctx, DRV, MODELS, lines)
     _evaluate(ctx, lines, pending, answers)
     _noise_stream(ctx, 12 if ctx.quick else 150, nprng)
-    if not ctx.quick:
-        _noreduce_stream(ctx, 120, nprng)
+    _noreduce_stream(ctx, 8 if ctx.quick else 120, nprng)
 
 
 def search(ctx, reasons):
